@@ -234,6 +234,7 @@ Proof.
     destruct (at_path_st path _ O (root_es s) (s_next s) (s_ranks s)) as [[[es' nx] rk]|] eqn:Hat;
       [|reflexivity]. cbn [fst].
     refine (at_path_st_nranks s path _ (es', nx, rk) Hs _ Hat). apply get_ref_single_len.
+  - destruct (Nat.leb (length pt) (nranks s) && negb (Nat.eqb (length pt) 0)); reflexivity.
 Qed.
 
 Lemma outcome_code_V o :
